@@ -23,6 +23,7 @@ RULE = (
     "Gaussian +- log-partition, polynomial), squares multiply(c,c), chains of 3, evidence-conditioned "
     "operands, plus unaligned / incompatible pairs (expected refusals); 4 flags; distinct = pair of "
     "structure signatures; non-trivial = multiply returned a circuit"
+    " Also: twin pairs (same architecture, independent tensors), pair-arities (dense sums of arity 1-3 over shuffled product inputs and leaf mixtures in both operands);"
 )
 EXHAUSTIVE_SUBSPACES = ["all complete assignments for discrete pairs with <= 128 assignments", "all 4 (fold, optimize) combinations (even-numbered cases)"]
 ASSUMPTIONS = ["reference interpreter vf/ref.py evaluates the operands", "any exception type counts as a refusal (the property says 'or raises')"]
